@@ -18,7 +18,7 @@ TRUSTED = ['Coq 8.16.1 kernel + vm_compute', 'harness/p01.py step builders and o
            'Python generator laziness is modelled as function composition on event lists (validated by the trace correspondence of C04-C06)']
 ASSUMES = ['steps are deterministic and user callables do not keep state across runs']
 
-STEP_KINDS = ['add_field', 'row_fn', 'rows_fn', 'pkg_fn', 'filter', 'set_type', 'rename', 'delete_field', 'sort', 'duplicate',
+STEP_KINDS = ['add_field', 'row_fn', 'row_ret', 'rows_fn', 'pkg_fn', 'filter', 'set_type', 'rename', 'delete_field', 'sort', 'duplicate',
               'concat', 'unpivot', 'dedup', 'find_replace', 'add_computed', 'delete_res', 'update_resource', 'printer']
 WRAPS = ['function', 'lambda', 'method', 'partial', 'object']
 
@@ -104,6 +104,13 @@ def _row(row, k):
     row['v'] = row['v'] + k
 
 
+def _row_ret(row, k):
+    # a row function may edit the row in place (returning nothing) or return a replacement, row by row
+    if row['id'] % 3 == 1:
+        return dict(row, v=row['v'] + 10 * k)
+    row['v'] = row['v'] + k
+
+
 def _rows(rows, k):
     for r in rows:
         r['s'] = r['s'] + str(k)
@@ -148,6 +155,8 @@ def mk_step(st, idx):
     t, k = st['t'], st['arg']
     if t in ('row_fn', 'rows_fn', 'pkg_fn'):
         return wrap(t, k, st['wrap'])
+    if t == 'row_ret':
+        return (lambda row: _row_ret(row, k)) if st['wrap'] != 'partial' else functools.partial(lambda k_, row: _row_ret(row, k_), k)
     if t == 'add_field':
         return DF.add_field('f%d' % idx, 'integer', k)
     if t == 'filter':
